@@ -31,9 +31,10 @@ const (
 	opReopen
 	opSetThreshold
 	opSetTolerance
+	opBulkAdd // one AddSignatures call with ~1000-2500 unique IDs: crosses the 1000-entry chunk boundaries of rebuild/migrate
 )
 
-var opNames = []string{"Add", "AddBatch", "Delete", "MarkFP", "Rebuild", "Checkpoint", "Compact", "Reopen", "SetThreshold", "SetTolerance"}
+var opNames = []string{"Add", "AddBatch", "Delete", "MarkFP", "Rebuild", "Checkpoint", "Compact", "Reopen", "SetThreshold", "SetTolerance", "BulkAdd"}
 
 type storeOp struct {
 	Kind  opKind
@@ -45,6 +46,8 @@ type storeOp struct {
 
 func (o storeOp) String() string {
 	switch o.Kind {
+	case opBulkAdd:
+		return fmt.Sprintf("BulkAdd(%d unique IDs)", len(o.Sigs))
 	case opAdd, opAddBatch:
 		var parts []string
 		for _, s := range o.Sigs {
@@ -70,6 +73,7 @@ func (o storeOp) String() string {
 }
 
 type genCtx struct {
+	bulked  bool
 	n       int
 	autoIDs []string
 	swarm   []int // weights per op kind for this run
@@ -129,7 +133,23 @@ func (g *genCtx) pickID(t *vs.Tape) string {
 func genOp(t *vs.Tape, g *genCtx) storeOp {
 	k := opKind(t.Weighted("op.kind", g.swarm...))
 	op := storeOp{Kind: k}
+	if k == opBulkAdd && g.bulked {
+		k = opRebuild // at most one bulk load per history; follow it with a rebuild
+		op.Kind = k
+	}
 	switch k {
+	case opBulkAdd:
+		g.bulked = true
+		n := []int{999, 1000, 1001, 1999, 2000, 2001, 2500}[t.Intn(7, "bulk.n")]
+		th := topoHashes()
+		fh := fuzzyHashes()
+		for i := 0; i < n; i++ {
+			op.Sigs = append(op.Sigs, detection.Signature{
+				ID: fmt.Sprintf("U%05d", i), Name: "bulk", Description: fmt.Sprintf("b%d", i), Severity: "LOW", Category: "bulk",
+				TopologyHash: th[i%len(th)], FuzzyHash: fh[i%len(fh)], EntropyScore: poolEntropy[i%len(poolEntropy)], EntropyTolerance: poolTol[i%len(poolTol)],
+				NodeCount: 4, LoopDepth: 1,
+			})
+		}
 	case opAdd:
 		op.Sigs = []detection.Signature{genSig(t, g, true, true)}
 	case opAddBatch:
@@ -153,12 +173,23 @@ func genOp(t *vs.Tape, g *genCtx) storeOp {
 // swarmWeights draws the operation mix of one run: every kind gets a base
 // weight and a random subset is boosted or disabled (swarm testing).
 func swarmWeights(t *vs.Tape, crash bool) []int {
-	base := []int{8, 5, 4, 2, 2, 1, 1, 2, 1, 1}
+	base := []int{8, 5, 4, 2, 2, 1, 1, 2, 1, 1, 0}
 	if crash {
-		base = []int{8, 5, 4, 2, 3, 1, 1, 1, 0, 0}
+		base = []int{8, 5, 4, 2, 3, 1, 1, 1, 0, 0, 0}
 	}
 	w := append([]int(nil), base...)
-	for i := range w {
+	// bulk histories are expensive: a small fraction of runs enables them
+	bulkRun := t.Chance("swarm.bulk", 1, 120)
+	if crash {
+		bulkRun = t.Chance("swarm.bulk", 1, 150)
+	}
+	defer func() {
+		if bulkRun {
+			w[int(opBulkAdd)] = 6
+			w[int(opRebuild)] += 4
+		}
+	}()
+	for i := range w[:int(opBulkAdd)] {
 		switch t.Weighted("swarm", 6, 1, 1) {
 		case 1:
 			w[i] *= 4
@@ -249,7 +280,10 @@ func (e *storeEnv) apply(op storeOp, g *genCtx) *vs.Violation {
 			}
 			m.sigs[sig.ID] = cloneSig(sig)
 		}
-	case opAddBatch:
+	case opAddBatch, opBulkAdd:
+		if op.Kind == opBulkAdd {
+			e.c.Inc("bulk_loads")
+		}
 		ptrs := make([]*detection.Signature, len(op.Sigs))
 		cp := make([]detection.Signature, len(op.Sigs))
 		wantErr := false
@@ -342,7 +376,7 @@ func (e *storeEnv) apply(op storeOp, g *genCtx) *vs.Violation {
 }
 
 func isMutation(k opKind) bool {
-	return k == opAdd || k == opAddBatch || k == opDelete || k == opMarkFP || k == opRebuild
+	return k == opAdd || k == opAddBatch || k == opDelete || k == opMarkFP || k == opRebuild || k == opBulkAdd
 }
 
 // ---------------------------------------------------------------- C06
@@ -380,6 +414,9 @@ func runC06(t *vs.Tape, cfg map[string]string) (res vs.Result) {
 			v.Msg = fmt.Sprintf("step %d %s: %s", i, op, v.Msg)
 			res.Violation = v
 			break
+		}
+		if op.Kind == opBulkAdd && nOps > i+6 {
+			nOps = i + 6 // bulk-loaded stores make every later step expensive: keep the tail short
 		}
 		withExport := t.Chance("check.export", 1, 4)
 		if v := checkAll(e.s, e.m, scopeFull, withExport, ""); v != nil {
